@@ -148,8 +148,10 @@ ConcatC(e, pre, post, regs, want) ==
       n1 == Len(pre[regs[1]].t)
       total == Len(ExpT(segs, pre, 1))
       styled == \E i \in DOMAIN regs : HasStyle(pre[regs[i]])
+      \* a plain str operand containing escape sequences is parsed by the library: outside this claim
+      plainEsc == \E i \in DOMAIN regs : pre[regs[i]].k = "P" /\ ~NoEsc(pre[regs[i]].t)
   IN Cl("C05.defined", TRUE, e.out = "ok")
-  \o IF ~HasResult(e) THEN None ELSE
+  \o IF ~HasResult(e) \/ plainEsc THEN None ELSE
      LET w == ResultOf(e, post) IN
         Cl("C05.text", total > 0, TextIs(w, segs, pre))
      \o Cl("C05.left_sty", styled /\ n1 > 0, StyIsOn(w, segs, pre, 1, n1))
@@ -240,18 +242,6 @@ ClearC(e, pre, post) ==
 
 ---------------------------------------------------------------------------
 \* C01: rendering (str(), to_str() with the 8 flag combinations, format() with an empty spec)
-UsesParamOnly(v) == \A i \in DOMAIN v.s : \A k \in DOMAIN v.s[i] : ParamOnly[v.s[i][k][2]]
-\* text occurs in body as a run of whole ';'-separated parameters
-OccursIn(text, body) ==
-  \E off \in 0..(Len(body) - Len(text)) :
-     /\ SubSeq(body, off + 1, off + Len(text)) = text
-     /\ (off = 0 \/ body[off] = SEMI)
-     /\ (off + Len(text) = Len(body) \/ body[off + Len(text) + 1] = SEMI)
-
-Shown(run, v) ==
-  /\ Len(run.chars) = Len(v.t)
-  /\ \A i \in DOMAIN v.t : run.chars[i][1] = v.t[i] /\ run.chars[i][2] = Display(v.s[i])
-
 RenderC(e, pre, post) ==
   LET v == pre[e.r]
       fl == e.a.flags                         \* <<optimize, reset_start, reset_end>>
